@@ -346,6 +346,16 @@ def r_feature_loop(repo, rep, R='R6.4'):
         okset = show(inner).replace(' ', '') in ('(set(self.x_features.keys())&set(self.y_features.keys()))',
                                                  '(set(self.y_features.keys())&set(self.x_features.keys()))',
                                                  '(self.x_features.keys()&self.y_features.keys())')
+        if not okset and inner[0] in ('listcomp', 'genexp', 'setcomp') and len(inner[2]) == 1:
+            # the keys of one table filtered by membership in the other
+            src_t, filt = inner[2][0]
+            keys_of = lambda t_: t_[1][1] if (t_[0] == 'call' and t_[1][0] == 'attr' and t_[1][2] == 'keys' and not t_[2]) else t_
+            a_ = keys_of(src_t)
+            el = ('elem', src_t, None)
+            same_elem = lambda t_: t_[0] == 'elem' and t_[1] == src_t
+            if same_elem(inner[1]) and len(filt) == 1 and filt[0][0] == 'cmp' and filt[0][1] == 'in' and same_elem(filt[0][2]):
+                b_ = keys_of(filt[0][3])
+                okset = {a_, b_} == {A(N('self'), 'x_features'), A(N('self'), 'y_features')}
         rep.check(okset, R, w, 'feature-loop:shared', 'the loop visits exactly the variables seen on both sides (%s)' % show(it)[:90],
                   'the loop visits %s' % show(it)[:90])
     rep.check(fail, R, w, 'feature-loop:fail', 'matching fails exactly when neither side\'s feature unifies with the other',
